@@ -181,7 +181,7 @@ PROPS.update({
 
 PARSE_RULE = ("random cobra trees (1-4 commands nested arbitrarily, aliases, hidden / deprecated commands, DisableFlagParsing, non-interspersed commands; 0-4 flags per command of kind bool / count / string / stringSlice / optional-argument, shorthands from a pool of six letters so that chains collide, persistent flags, hidden / deprecated / shorthand-deprecated flags, one or two mutually exclusive groups; one case in ten: flags of the carapace-pflag fork - `Nargs` 2 / 3 / -1 on slice flags, a custom `OptargDelimiter` (`:` `/` `%`) on long flags and, rarely, on a flag with a shorthand; 0-2 positional completions + any, 0-1 dash completions + any - every slot registered with a distinct marker value) "
               "x lines of 0-5 earlier words built by a grammar (`--f v`, `--f=v`, `-f v`, `-fv`, shorthand chains, `--`, empty words, lone `-`, positionals, sub-command names and aliases, unknown flags) and a current word (empty, `-`, `--`, partial names, chains, `--f=`, `-f=`, `--f<d>`, `--f<d>partial`; for `Nargs` flags runs of words with `-`, `--`, flags and empty words inside); every offered candidate is appended to the line and the line is executed by the program's own parser on a fresh tree; non-trivial = at least one candidate was offered; distinct = distinct input digest")
-PARSE_ASSUME = ["the pflag fork's non-posix modes (shorthands longer than one letter, ShorthandOnly / NameAsShorthand flags) and cobra's TraverseChildren are not generated; the fork's Nargs and custom OptargDelimiter are, inside POSIX flag sets", "commands accept arbitrary positional arguments (cobra.ArbitraryArgs), so that acceptance depends on flags and dispatch only",
+PARSE_ASSUME = ["cobra's TraverseChildren is not generated; the fork's Nargs, custom OptargDelimiter and tolerated unknown flags are generated and modelled inside POSIX flag sets; its non-POSIX mode (a shorthand that is a word, ShorthandOnly / NameAsShorthand flags; one case in 16) is generated but has no model: there only the two oracles on the real code decide", "commands accept arbitrary positional arguments (cobra.ArbitraryArgs), so that acceptance depends on flags and dispatch only",
                 "the default `completion` command is disabled; the default help command and flag are cobra's"]
 PARSE_NOTE = ("Trusted: Lean kernel + propext/Classical.choice/Quot.sound; cobra v1.9.1 and carapace-pflag v1.0.0 are the oracle (the program's own parser is executed, not modelled, for the slot / acceptance checks; `pflagShort` is a specification of parseSingleShortArg used by the stage-1 theorems and checked against the real parser by op `lookuparg`); the harness (tree builder, marker registration) and generators. "
               "Modelled: internal/pflagfork LookupArg / Consumes, the offer rules of actionFlags and IsMutuallyExclusive. traverse itself is not modelled.")
@@ -195,7 +195,7 @@ PROPS.update({
                            "stages 2-3 for any command of any program as long as no earlier word names one of its sub-commands (hypotheses `Stay`, `NoChild`; a single-command program is the special case `Single.stay`) - `C01_positional_lands` (if the model completes positional argument k for a word not starting with `-`, then any word typed there that does not look like a flag is accepted by the parser, given that it accepts the line so far, and becomes exactly positional argument k) `C01_dash_lands` (likewise for argument k after `--`, for any word; hypothesis: no flag is waiting for its value) and, for interspersed commands, `C01_flag_value_lands` (if the model completes the value of flag f, any word of f's type typed there is accepted and is assigned to f as the last assignment of the line: `long_pending`, `short_pending`, the loop invariant `loop_pend` - a flag that waits for its value is the last word - and `parseArgs_append_inter`), resting on `parseArgs_snoc` (the parser's result on `ws ++ [w]` from its result on `ws`, by induction over the line) and `loop_single`. Not proved: non-interspersed commands for the flag-value slot, attached values (`--flag=<TAB>`), and lines that descend into a sub-command (the listed descent findings live there; the dispatch itself is cobra's `Find`, which is executed, not modelled). "
                            "The fork's features (POSIX flag sets): general models `traverseSlotG` / `lookupArgG` / `consumesG` (Model/TraverseG.lean, ForkG.lean) and the parser specification `PflagG.parseG` with per-flag `OptargDelimiter` and `Nargs`; proved `C01_fork_long_attached` (`--name<d>value`, names free of delimiters: carapace resolves the word to that flag with prefix `--name<d>` and argument `value`, the parser assigns `value` to the same flag and takes no further word), `loopG_any_run` + `consumesG_any_stops` + `takeNargs_any` (`Nargs` < 0: carapace's loop and the parser's parseNargs give the flag the same run of words - true only since fix 8fe9b47), `consumesG_n` + `takeNargs_n` (`Nargs` = n), and `lookupArgG_posix` / `consumesG_posix` (without fork features the general lookup is the POSIX one of the theorems above); the driver runs both models and both specifications on every case without fork features and reports any disagreement as a mismatch. "
                            "Ties: `Pflag.parse` = the real parser on every generated line (op `pflagparse`); `traverseSlot` = the slot the real traverse serves, observed through per-slot marker values, on every generated line incl. sub-command descent, parse errors, DisableFlagParsing, non-interspersed commands (op `parse`); LookupArg / Consumes model = internal/pflagfork (op `lookuparg`). "
-                           "Decided on the real code: every offered candidate carries a marker of the slot that produced it; it is appended to the line and the line is executed by the program's own cobra/pflag on a fresh tree: it must land in that slot (command, positional index, index after the dash, flag)."),
+                           "Decided on the real code, both directions: every offered candidate carries a marker of the slot that produced it; it is appended to the line and the line is executed by the program's own cobra/pflag on a fresh tree: it must land in that slot (command, positional index, index after the dash, flag); and a probe word typed at the cursor is run through the program the same way: the slot it lands in must be the slot whose registered completion is served (this direction needs no model and also covers non-POSIX flag sets)."),
             "level_note": PARSE_NOTE},
     "C07": {"modules": ["Carapace.Props.C07", "Carapace.Props.C07Parser"], "ops": [("parse", {"quick": 6000, "thorough": 300000})],
             "rule": PARSE_RULE, "assumptions": PARSE_ASSUME, "claimed": True, "engine": "parse",
